@@ -450,7 +450,13 @@ class _Builder:
             for x in chosen:
                 as_name = None
                 if feat.as_names and d(st.integers(0, 2)) == 0:
-                    as_name = self.names.take(d, AS_WORDS)
+                    # the `as` name other FILES of the unit gave to other imports may be used again (names are per file)
+                    prior = [n for n in getattr(self, "_as_used", []) if all(getattr(i, "as_name", None) != n for i in f.items)]
+                    if prior and d(st.integers(0, 2)) == 0:
+                        as_name = prior[d(st.integers(0, len(prior) - 1))]
+                    else:
+                        as_name = self.names.take(d, AS_WORDS)
+                        self._as_used = getattr(self, "_as_used", []) + [as_name]
                 f.items.append(Import(x, as_name))
         big = feat.big and d(st.integers(0, 24)) == 0
         self.special = None
